@@ -285,13 +285,13 @@ class RenderContext:
 
         if kwargs:
             if hasattr(filter_func, "filter_async"):
-                _filter_func = partial(filter_func, **kwargs)
-                _filter_func.filter_async = partial(  # type: ignore
+                _filter_func = _BoundFilter(filter_func, **kwargs)
+                _filter_func.filter_async = _BoundFilter(  # type: ignore
                     filter_func.filter_async,
                     **kwargs,
                 )
                 return _filter_func
-            return partial(filter_func, **kwargs)
+            return _BoundFilter(filter_func, **kwargs)
 
         return filter_func
 
@@ -485,6 +485,17 @@ class BuiltIn(Mapping[str, object]):
 
 
 builtin = BuiltIn()
+
+
+class _BoundFilter(partial):  # type: ignore
+    """A filter function with the render context and/or environment bound to it."""
+
+    def __call__(self, *args: Any, **kwargs: Any) -> Any:
+        for name in self.keywords:
+            if name in kwargs:
+                # A template must not replace the context or environment.
+                raise TypeError(f"unexpected keyword argument '{name}'")
+        return super().__call__(*args, **kwargs)
 
 
 def _len(obj: Sized) -> int:
